@@ -504,7 +504,9 @@ def calls_family(seed, quick):
         ni = len(imps)
         callers = [Func([I64], [I64], [], [('local.get', 0), ('i64.const', 11 * (k + 1)), ('i64.add',), ('call', k), ('i64.const', k + 1), ('i64.xor',)]) for k in range(ni)]
         viatab = Func([I32, I64], [I64], [], [('local.get', 1), ('local.get', 0), ('call_indirect', hb, 0)])
-        m = Module(imports=imps, funcs=callers + [viatab], tables=[(ni + 2, ni + 2)], elems=[Elem(('i32.const', 0), list(range(ni)) + [ni + 1])],
+        # variant 0 ends with a function that nothing refers to: every index stays in range even if an import were lost
+        tailf = [Func([I64], [I64], [], [('local.get', 0), ('i64.const', 77), ('i64.mul',)])] if vi == 0 else []
+        m = Module(imports=imps, funcs=callers + [viatab] + tailf, tables=[(ni + 2, ni + 2)], elems=[Elem(('i32.const', 0), list(range(ni)) + [ni + 1])],
                    exports=[('c%d' % k, 'func', ni + k) for k in range(ni)] + [('e%d' % k, 'func', k) for k in range(ni)] + [('t', 'func', 2 * ni)])
         script = [{'call': 'c%d' % k} for k in range(ni)] + [{'call': 'e%d' % (ni - 1)}, {'call': 't', 'assume': {0: '$ <= %d' % ni}}]
         out.append(('dupimport_%d' % vi, m, script, {'tab_slots': ni + 2, 'max_host_calls': 2 * ni + 4}))
